@@ -78,11 +78,11 @@ CHECKS = {
             "of 2-8 columns, shared and per-column parameters/time, three shape options, every generated function.",
             "Gallina batch semantics with column-wise theorem + array-safety validation + batch-vs-column execution"),
     "C02": ("Theorems (the typed C99 evaluation - integer constants are ints, int/int truncates, math functions are double, fmod has the "
-            "sign of the dividend - equals the real meaning on the fragment without int/int division and fmod, for every carrier into "
+            "sign of the dividend, which is why the generator now prints Mod as fmod(fmod(a, b) + b, b) - equals the real meaning on the fragment without int/int division and fmod, for every carrier into "
             "which int embeds as a ring; the reals are one; computed refutations for (1/4)*x, (2*3)/4, fmod) + correspondence: every "
             "right-hand side of the generated C, parsed with typed constants, evaluated by the extracted typed evaluator, must equal "
             "what the gcc/clang-compiled unit computes; direct: compile in default mode, init functions, rhs/monitor_values/schemes vs "
-            "reference meaning and numpy module; mismatches the typed evaluator predicts outside the safe fragment are the known findings.",
+            "reference meaning and numpy module, a sub-model with missing variables compiled and compared with its numpy code; mismatches the typed evaluator predicts for integer quotients of the model text are the one known finding.",
             "Gallina typed C-expression semantics with soundness theorem + compile-and-run differential execution"),
     "C03": ("Theorems (a validated function returns, under the jax convention _values_i + returned list, an array of the declared "
             "length equal to the numpy result; an unassigned declared slot is an error) + correspondence: jax skeletons pass the same "
@@ -101,17 +101,17 @@ CHECKS = {
             "point, for any number of singularities and every carrier with selection laws; nothing changes without removable "
             "singularities; the summed combination the code uses equals the nested one for one singularity - C16_partial - and counts "
             "the expression k times for k - refuted, known finding) + direct: ode vs remove_singularities() on and off the singular "
-            "points for 0-3 singularities, single and split layouts, limits re-checked with 50-digit arithmetic.",
+            "points for 0-3 singularities built from 13 blocks (zeros of a denominator, x log|x| shapes, quotients with a common factor; each block at least once per run), single and split layouts, limits re-checked with 50-digit arithmetic.",
             "Gallina model of both combinations with theorems + on/off-singularity differential execution"),
     "C19": ("Theorems (a validated body binds each name exactly once and never one of the function's own formals dt / t / time; "
             "consistent renaming of identifiers preserves the value of every expression and renames exactly the occurring names) + "
             "correspondence: validators on the code generated for every accepted (identifier, role); direct: model with the identifier "
             "vs the same model with it renamed, for generator-internal names, Python / C keywords and builtins, numpy / math / sympy names "
-            "and underscore / digit shapes, in the roles state / parameter / intermediate, numpy + C + jax.",
+            "and underscore / digit shapes, in the roles state / parameter / intermediate / conditional intermediate and as quantities no expression reads, with and without remove_unused, numpy + C + jax at two points; the jax slot variables _values_<i> capture nothing outside the refused pattern (JaxNames.v).",
             "Gallina capture-freedom theorems on validated code + rename-and-compare differential execution"),
     "C17": ("Theorems (comment items are ignored by the loader mirror for any text and place; annotations and component tags do not "
             "influence statement order or slot layout - partial: the lexer-level part is outside the item-level model) + correspondence: "
-            "loader mirror on the items of the real parse of base and decorated text; direct: seven decorations x 46 comment strings, "
+            "loader mirror on the items of the real parse of base and decorated text (every load goes through gotranx.load.ode_from_string); direct: seven decorations x 54 comment strings (each also once as trailing comment and as comment line on a fixed model), "
             "per-load time limit, layout / membership / numerics compared; three directed lexer-level known findings.",
             "Gallina loader model with inertness theorems + metamorphic execution on decorated texts"),
     "C11": ("Theorems (save_then_load: for every loaded model the items the writer mirror produces load again, to an equivalent model "
